@@ -290,6 +290,15 @@ func evalC10(c *Ctx, cs EnumCase) EnumResult {
 			if msg != "" {
 				vs = append(vs, explore.Violation{Sig: "C10:follower-changed-on-its-own", Msg: fmt.Sprintf("sequence %v: %s", names, msg)})
 			}
+		case "follower-expiry":
+			msg, e := runFollowerExpiry(sq[0])
+			if e != "" {
+				return EnumResult{Err: e}
+			}
+			distinct[fmt.Sprint(sq)] = true
+			if msg != "" {
+				vs = append(vs, explore.Violation{Sig: "C10:follower-ended-hold-on-its-own-clock", Msg: msg})
+			}
 		case "no-leader":
 			for _, state := range []int{2, 3, 4, 5} { // follower, sync, config, vote
 				msg, e := runNoLeader(steps, a.Text, state)
@@ -357,6 +366,56 @@ func runHeldStream(steps []wStep, text bool) (msg string, err string) {
 	return
 }
 
+// runFollowerExpiry: a replicated hold with expiry E is not ended by the follower on its own clock while
+// the leader is silent (stream held) until 300 s past the deadline; it ends when the leader's record arrives.
+func runFollowerExpiry(E int) (msg string, err string) {
+	rt := vrt.Run(vrt.Options{MaxPoints: 400_000_000}, func() {
+		cl, e := StartLeaderFollowers(1, nil)
+		if e != nil {
+			err = e.Error()
+			return
+		}
+		c, _ := wire.Dial(cl.Addrs[0])
+		_ = c.Send(wire.BinFrame(withEF(hapi.Cmd{Type: 1, Req: 1, Key: 1, Id: 1, Expried: uint16(E)}, efZeroAof)))
+		vrt.AdvanceTo(vrt.Elapsed() + 500*ms)
+		t0 := vrt.Elapsed()
+		var k1 [16]byte
+		k1[15] = 1
+		held := func(n hapi.Node) bool { ks := n.Snapshot().Key(0, k1); return ks != nil && len(ks.Holds) == 1 }
+		if !held(cl.Nodes[1]) {
+			err = "the hold was not replicated to the follower"
+			return
+		}
+		for _, l := range vnet.Links() {
+			if l.DialGroup == "n1" && l.ListenAddr == nodeAddr(0) {
+				l.BtoA.Hold = true
+			}
+		}
+		for _, dt := range []int64{int64(E)*sec + 3*sec, int64(E)*sec + 100*sec, int64(E)*sec + 290*sec} {
+			vrt.AdvanceTo(t0 + dt)
+			if held(cl.Nodes[0]) && dt > int64(E)*sec+2*sec {
+				msg = fmt.Sprintf("leader still holds the lock %d s after taking it with expiry %d", dt/sec, E)
+				return
+			}
+			if !held(cl.Nodes[1]) {
+				msg = fmt.Sprintf("the follower ended the replicated hold (expiry %d s) on its own clock %d s after the grant although the leader's stream was silent (it must wait up to 300 s past the deadline)", E, dt/sec)
+				return
+			}
+		}
+		for _, l := range vnet.Links() {
+			l.BtoA.Hold = false
+		}
+		vrt.AdvanceTo(vrt.Elapsed() + 3*sec)
+		if held(cl.Nodes[1]) {
+			msg = "the follower still holds the lock 3 s after the leader's expiry record was delivered"
+		}
+	})
+	if rt.Crash != nil {
+		err = "crash: " + rt.Crash.Value
+	}
+	return
+}
+
 // runNoLeader: a node forced into a non-leader state that knows no leader refuses every request with
 // STATE_ERROR (binary) / an error (text) and changes nothing.
 func runNoLeader(steps []wStep, text bool, state int) (msg string, err string) {
@@ -380,6 +439,12 @@ func runNoLeader(steps []wStep, text bool, state int) (msg string, err string) {
 			return
 		}
 		for si, r := range per {
+		if si < len(steps) && steps[si].Text != nil {
+			switch strings.ToUpper(steps[si].Text[0]) {
+			case "GET", "EXISTS", "STRLEN", "TYPE", "TTL", "PTTL", "KEYS", "SCAN", "PING":
+				continue // reads are served from the node's own replica: nothing is granted, queued or released
+			}
+		}
 		for _, x := range r {
 			ok := strings.Contains(x, "STATE_ERROR") || strings.HasPrefix(x, "-") || x == "<closed>" || strings.HasPrefix(x, "r238=") || x == "+PONG" // ping replies
 			if !ok {
@@ -405,11 +470,19 @@ func runNoLeader(steps []wStep, text bool, state int) (msg string, err string) {
 	return
 }
 
-// strip removes the remaining-time figures (time passes during the test).
+// strip removes the remaining-time figures (time passes during the test) and the queued requests (only
+// holds are replicated).
 func strip(s string) string {
 	out := ""
+	inW := false
 	for _, f := range strings.Fields(s) {
-		if strings.HasPrefix(f, "in") {
+		if strings.HasPrefix(f, "W(") {
+			inW = true
+		}
+		if strings.HasPrefix(f, "H(") || strings.HasPrefix(f, "db") || strings.HasPrefix(f, "key") || strings.HasPrefix(f, "val") {
+			inW = false
+		}
+		if inW || strings.HasPrefix(f, "in") {
 			continue
 		}
 		out += f + " "
@@ -419,9 +492,9 @@ func strip(s string) string {
 
 func c10Cases(quick bool) []EnumCase {
 	var out []EnumCase
-	depth := 2
+	depth := 3
 	if !quick {
-		depth = 3
+		depth = 4
 	}
 	for _, text := range []bool{false, true} {
 		n := len(c10Alpha(text))
@@ -429,7 +502,7 @@ func c10Cases(quick bool) []EnumCase {
 		for _, kind := range []string{"differential", "held-stream", "no-leader"} {
 			ss := sq
 			if kind != "differential" {
-				ss = seqsOf(n, depth-1+btoi(!quick)*0)
+				ss = seqsOf(n, depth-1)
 			}
 			chunk := 6
 			for f := 0; f < len(ss); f += chunk {
@@ -440,6 +513,12 @@ func c10Cases(quick bool) []EnumCase {
 				out = append(out, mkCase(fmt.Sprintf("%s/text=%v/%d-%d", kind, text, f, t-1), c10Arg{kind, text, ss[f:t]}))
 			}
 		}
+	}
+	for _, E := range []int{2, 5, 9, 30} {
+		if quick && E > 5 {
+			continue
+		}
+		out = append(out, mkCase(fmt.Sprintf("follower-expiry/E%d", E), c10Arg{"follower-expiry", false, [][]int{{E}}}))
 	}
 	return out
 }
